@@ -108,6 +108,16 @@ def struct_templates():
     t.append("def test(a: Qint[2], b: Qint[2], c: Qint[2]) -> bool:\n    return a < b and b < c")
     t.append("def test(a: Qint[2]) -> Qint[4]:\n    return a * a")
     t.append("def test(a: Qint[2], b: Qint[2]) -> Qint[4]:\n    return (a + b) * 2")
+    # returning bare bits / whole arguments from every argument position
+    t.append("def test(a: bool, b: bool) -> bool:\n    return a")
+    t.append("def test(a: bool, b: bool) -> bool:\n    return b")
+    t.append("def test(a: bool, b: bool, c: bool) -> bool:\n    return b")
+    t.append("def test(a: Qint[2], b: bool) -> bool:\n    return a[1]")
+    t.append("def test(a: Tuple[bool, bool], b: bool) -> bool:\n    return a[0]")
+    t.append("def test(a: Qint[2], b: Qint[2]) -> Qint[2]:\n    return a")
+    t.append("def test(a: Qint[2], b: Qint[2]) -> Tuple[Qint[2], Qint[2]]:\n    return (b, a)")
+    t.append("def test(a: bool, b: bool) -> Tuple[bool, bool, bool]:\n    return (a, b, a)")
+    t.append("def test(a: bool, b: bool) -> bool:\n    c = a\n    return c")
     return t
 
 
